@@ -2,6 +2,7 @@ import S3V.Base.Bytes
 import S3V.Model.Multipart
 import S3V.Model.MultipartObs
 import S3V.Model.Body
+import S3V.Model.PrepareBody
 import S3V.Spec.Multipart
 /-!
 Driver for component `multipart` (C09 a/b/d, multipart half of C10). Case lines (after `multipart \t id`):
@@ -196,6 +197,25 @@ def judgePlain (id : String) (e2e : Bool) (frH : String) (chunksH errS : String)
     | none => badline id
   | _, _ => badline id
 
+open S3V.Prepare S3V.PrepareBody in
+/-- the `buf` request (`PUT /bucket?tagging`, anonymous, no provider) through the model of the middle of `ops::prepare`
+    with the body the harness streams (`S3V.PrepareBody`, theorems `S3V/Props/C02Length.lean`): the verdict kind and,
+    when the operation is reached, what `take_bytes()` of its body helper finds -/
+def prepareBuf (declared : Option Nat) (frames : List (Option Bytes)) : String × Option Bytes :=
+  let body := ReqBody.stream frames
+  let r : Request Unit Unit :=
+    { method := .PUT, rawQuery := some "tagging".toUTF8.toList, h := fun _ => false,
+      clHeader := declared.map fun n => (toString n).toUTF8.toList, contentLength := declared,
+      decodedContentLength := none, sig := .ok ⟨none, false, none⟩, body := body.obs }
+  let res := prepare (⟨false, none, none⟩ : Ctx Unit Unit) (.bucket "bucket".toUTF8.toList) r
+  match res.outcome with
+  | .s3 op full =>
+    if op == .PutBucketTagging then ("ok", takeBytes full res.contentLength body) else ("other-operation", none)
+  | .error (.code .internalError) => ("internal", none)
+  | .error (.code .missingContentLength) => ("mcl", none)
+  | .error (.code .incompleteBody) => ("incomplete", none)
+  | _ => ("other-error", none)
+
 def judgeBuf (id : String) (ins outs : List String) : String :=
   match ins, outs with
   | [frH, declS, _sched, xmlH, tagsH], [status, code, itags] =>
@@ -222,11 +242,14 @@ def judgeBuf (id : String) (ins outs : List String) : String :=
       let modelV := match Body.extractFullBody declared frames with
         | .ok bd => expect "ok" (some bd) | .internalError => expect "internal" none
         | .missingContentLength => expect "mcl" none | .incompleteBody => expect "incomplete" none
+      let (pk, pb) := prepareBuf declared frames
+      let prepV := if (pk = "ok" && pb.isNone) || pk.startsWith "other" then none else expect pk pb
       match specV, modelV with
       | some sv, some mv =>
         let impl := (status, code, itags)
         if impl ≠ sv then specfail id "buf-framing" s!"spec={sv.1} {sv.2.1} impl={status} {code}"
         else if impl ≠ mv then disagree id s!"{mv.1} {mv.2.1} {mv.2.2}" s!"{status} {code} {itags}"
+        else if prepV ≠ some impl then disagree id s!"prepare model: {pk}" s!"{status} {code} {itags}"
         else agree id ("buf-" ++ (if code = "-" then "ok" else code))
       | _, _ => unmodelled id "buf-body-is-not-the-generated-document"
     | _, _, _ => badline id
